@@ -11,6 +11,9 @@
 #include <map>
 #include <sstream>
 #include <variant>
+#include <list>
+#include <thread>
+#include <mutex>
 #include <unistd.h>
 #include <sys/wait.h>
 
@@ -49,6 +52,19 @@ static sx parse_sx(std::istream& in)
 }
 static std::string unhex(std::string const& h) { std::string s; if (h == "-") return s; for (size_t i = 0; i + 1 < h.size(); i += 2) s.push_back(static_cast<char>(std::stoi(h.substr(i, 2), nullptr, 16))); return s; }
 static std::string hex(std::string_view s) { static char const* d = "0123456789abcdef"; std::string r; if (s.empty()) return "-"; for (unsigned char c : s) { r.push_back(d[c >> 4]); r.push_back(d[c & 15]); } return r; }
+
+// callbacks log into the current thread's log; an exception can be injected at the k-th callback invocation
+static thread_local std::vector<std::string>* g_log = nullptr;
+static thread_local long g_throw_at = -1;          // >= 0: throw when this many callbacks have run
+static thread_local long g_callbacks = 0;
+static thread_local std::function<void()>* g_nested = nullptr;   // called from the first action (re-entrancy probe)
+struct injected_error : std::runtime_error { injected_error() : std::runtime_error("injected") {} };
+static void on_callback()
+{
+	if (g_nested != nullptr && g_callbacks == 0) { ++g_callbacks; (*g_nested)(); return; }
+	if (g_throw_at >= 0 && g_callbacks == g_throw_at) { ++g_callbacks; throw injected_error{}; }
+	++g_callbacks;
+}
 
 struct builder {
 	std::map<std::string, rule> rules;   // stable addresses
@@ -94,8 +110,8 @@ struct builder {
 		if (op == "cutb") return un(build(arg(1)), [](auto const& x) { return --x; });
 		if (op == "cuta") return un(build(arg(1)), [](auto const& x) { return x--; });
 		if (op == "rep") { unsigned n = static_cast<unsigned>(std::stoul(arg(1).atom)), m = static_cast<unsigned>(std::stoul(arg(2).atom)); return un(build(arg(3)), [n, m](auto const& x) { return repeat(n, m)[x]; }); }
-		if (op == "act") { std::string id = arg(1).atom; auto* lg = log; return un(build(arg(2)), [id, lg](auto const& x) { return x < [id, lg](environment& e) { lg->push_back("A" + id + "@" + std::to_string(e.call_depth())); }; }); }
-		if (op == "cap") { std::string id = arg(1).atom; auto* lg = log; return un(build(arg(2)), [id, lg](auto const& x) { return x < [id, lg](environment& e, syntax const& sx) { lg->push_back("C" + id + "@" + std::to_string(e.call_depth()) + "(" + std::to_string(sx.index()) + "," + hex(sx.str()) + ")"); }; }); }
+		if (op == "act") { std::string id = arg(1).atom; return un(build(arg(2)), [id](auto const& x) { return x < [id](environment& e) { g_log->push_back("A" + id + "@" + std::to_string(e.call_depth())); on_callback(); }; }); }
+		if (op == "cap") { std::string id = arg(1).atom; return un(build(arg(2)), [id](auto const& x) { return x < [id](environment& e, syntax const& sx) { g_log->push_back("C" + id + "@" + std::to_string(e.call_depth()) + "(" + std::to_string(sx.index()) + "," + hex(sx.str()) + ")"); on_callback(); }; }); }
 		if (op == "sym") { auto nm = keep(arg(1).atom); return un(build(arg(2)), [nm](auto const& x) { return symbol(nm)[x]; }); }
 		if (op == "block") return un(build(arg(1)), [](auto const& x) { return block[x]; });
 		if (op == "local") return un(build(arg(1)), [](auto const& x) { return local[x]; });
@@ -134,15 +150,16 @@ struct builder {
 			return std::visit([&](auto const& x, auto const& rx) -> node { return mk(x[recover_with{rx}]); }, e, r);
 		}
 		if (op == "report") { // (report ID RESP e): handler logs and returns RESP (0..4); RESP 9 = void handler
-			std::string id = arg(1).atom; int resp = std::stoi(arg(2).atom); auto* lg = log;
-			return un(build(arg(3)), [id, resp, lg](auto const& x) { return x ^= [id, resp, lg](error_context& c) -> error_response {
-				lg->push_back("H" + id + "." + std::to_string(resp) + "(" + hex(c.label()) + "," + std::to_string(c.syntax().index()) + "," + std::to_string(c.syntax().size()) + "," + std::to_string(static_cast<int>(c.recovery_response())) + ")");
+			std::string id = arg(1).atom; int resp = std::stoi(arg(2).atom);
+			return un(build(arg(3)), [id, resp](auto const& x) { return x ^= [id, resp](error_context& c) -> error_response {
+				g_log->push_back("H" + id + "." + std::to_string(resp) + "(" + hex(c.label()) + "," + std::to_string(c.syntax().index()) + "," + std::to_string(c.syntax().size()) + "," + std::to_string(static_cast<int>(c.recovery_response())) + ")");
+				on_callback();
 				return resp == 9 ? c.recovery_response() : static_cast<error_response>(resp); }; });
 		}
 		if (op == "respond") { int resp = std::stoi(arg(1).atom); return un(build(arg(2)), [resp](auto const& x) { return x ^ static_cast<error_response>(resp); }); }
 		if (op == "pred") { // (pred ID k): true iff (|match| + k) even; logs
-			std::string id = arg(1).atom; int k = std::stoi(arg(2).atom); auto* lg = log;
-			return mk(make_expression([id, k, lg](environment& e) -> bool { lg->push_back("P" + id + "." + std::to_string(k) + "@" + std::to_string(e.match().size())); return ((e.match().size() + static_cast<size_t>(k)) % 2) == 0; }));
+			std::string id = arg(1).atom; int k = std::stoi(arg(2).atom);
+			return mk(make_expression([id, k](environment& e) -> bool { g_log->push_back("P" + id + "." + std::to_string(k) + "@" + std::to_string(e.match().size())); on_callback(); return ((e.match().size() + static_cast<size_t>(k)) % 2) == 0; }));
 		}
 		throw std::runtime_error("unknown op " + op);
 	}
@@ -243,6 +260,7 @@ template <class Parser, class Feed>
 static void run_one_inproc(int caseno, std::string const& tag, std::string const& inhex, grammar const& gr, std::vector<std::string>& log, Feed feed)
 {
 	log.clear();
+	g_log = &log; g_callbacks = 0;
 	environment e;
 	Parser p{gr, e};
 	g_steps = 0; g_hash = 0;
@@ -266,10 +284,144 @@ static void run_one_inproc(int caseno, std::string const& tag, std::string const
 	finish_run(caseno, tag, inhex, res, p, e, log);
 }
 
+
+// ---- one parse on an existing parser/environment (histories, interactive lines)
+template <class Parser>
+static std::string parse_once(Parser& p)
+{
+	g_steps = 0; g_hash = 0;
+	std::string res;
+	try {
+		g_in_run = true;
+		res = p.parse() ? "1" : "0";
+		g_in_run = false;
+	} catch (budget_exceeded const&) { g_in_run = false; res = "diverged";
+	} catch (injected_error const&) { g_in_run = false; res = "throw:injected";
+	} catch (lug_error const& ex) { g_in_run = false; res = std::string("throw:") + ex.what(); for (auto& c : res) if (c == ' ') c = '_';
+	} catch (std::exception const& ex) { g_in_run = false; res = std::string("throw:std:") + typeid(ex).name(); }
+	return res;
+}
+
+static void copy_user_state(environment const& from, environment& to)
+{
+	to.conditions_ = from.conditions_;
+	to.symbols_ = from.symbols_;
+	to.origin_ = from.origin_;
+	to.tab_width_ = from.tab_width_;
+	to.tab_alignment_ = from.tab_alignment_;
+}
+
+// (history (p HEX) (px HEX K) (pn HEX) ...): parses on ONE parser and environment; after each step the same
+// input (unread leftover + newly enqueued bytes) is parsed by a fresh parser and environment that were given
+// the user-managed state (conditions, symbols, origin, tab settings) the reused environment had before the step.
+static void run_history(int caseno, grammar const& gr, sx const& h, std::vector<std::string>& log)
+{
+	std::fflush(stdout);
+	pid_t const pid = fork();
+	if (pid != 0) { int st = 0; waitpid(pid, &st, 0); if (WIFSIGNALED(st) || (WIFEXITED(st) && WEXITSTATUS(st) != 0)) { std::printf("case %d run hist crashed status=%d\n", caseno, WIFSIGNALED(st) ? 1000 + WTERMSIG(st) : WEXITSTATUS(st)); std::fflush(stdout); } return; }
+	g_in_child = true; g_caseno = caseno; g_tag = "hist"; g_inhex = "-";
+	g_log = &log;
+	environment e;
+	parser p{gr, e};
+	for (size_t k = 1; k < h.kids.size(); ++k) {
+		auto const& step = h.kids[k];
+		std::string const kind = step.kids.at(0).atom;
+		std::string const inhex = step.kids.size() > 1 ? step.kids[1].atom : "-";
+		std::string const inp = unhex(inhex);
+		// what a fresh parser would be given
+		std::string leftover{p.input_source_.buffer().substr((std::min)(p.registers_.sr, p.input_source_.buffer().size()))};
+		environment fe; copy_user_state(e, fe);
+		log.clear(); g_callbacks = 0; g_throw_at = -1; g_nested = nullptr;
+		std::function<void()> nested = [&p]() { try { (void)p.parse(); g_log->push_back("NESTED:returned"); } catch (lug_error const& ex) { std::string w = ex.what(); for (auto& c : w) if (c == ' ') c = '_'; g_log->push_back("NESTED:" + w); } };
+		if (kind == "px") g_throw_at = std::stol(step.kids.at(2).atom);
+		if (kind == "pn") g_nested = &nested;
+		std::string tag = "h" + std::to_string(k) + kind;
+		g_tag = tag; g_inhex = inhex;
+		p.enqueue(inp.begin(), inp.end());
+		std::string res = parse_once(p);
+		g_throw_at = -1; g_nested = nullptr;
+		finish_run(caseno, tag, inhex, res.c_str(), p, e, log);
+		// reference: fresh parser + fresh environment, same input, same user-managed state
+		std::vector<std::string> flog; g_log = &flog; g_callbacks = 0;
+		if (kind == "px") g_throw_at = std::stol(step.kids.at(2).atom);
+		parser fp{gr, fe};
+		std::string all = leftover + inp;
+		fp.enqueue(all.begin(), all.end());
+		std::string fres = (kind == "pn") ? std::string("skipped") : parse_once(fp);
+		g_throw_at = -1;
+		finish_run(caseno, "f" + std::to_string(k) + kind, inhex, fres.c_str(), fp, fe, flog);
+		g_log = &log;
+	}
+	std::fflush(stdout);
+	_exit(0);
+}
+
+// (lines HEX HEX ...): an interactive source delivering one line per call; parse() is called until the source is dry
+static void run_lines(int caseno, grammar const& gr, sx const& h, std::vector<std::string>& log)
+{
+	std::fflush(stdout);
+	pid_t const pid = fork();
+	if (pid != 0) { int st = 0; waitpid(pid, &st, 0); if (WIFSIGNALED(st) || (WIFEXITED(st) && WEXITSTATUS(st) != 0)) { std::printf("case %d run lines crashed status=%d\n", caseno, WIFSIGNALED(st) ? 1000 + WTERMSIG(st) : WEXITSTATUS(st)); std::fflush(stdout); } return; }
+	g_in_child = true; g_caseno = caseno; g_tag = "lines"; g_inhex = "-";
+	g_log = &log;
+	std::vector<std::string> pieces;
+	for (size_t j = 1; j < h.kids.size(); ++j) pieces.push_back(unhex(h.kids[j].atom));
+	auto idx = std::make_shared<size_t>(0);
+	environment e;
+	parser p{gr, e};
+	p.push_source([pieces, idx](auto out) -> bool {
+		g_log->push_back("POLL");
+		if (*idx >= pieces.size()) return false;
+		for (char c : pieces[*idx]) *out++ = c;
+		++*idx;
+		return true;
+	}, source_options::interactive);
+	for (size_t k = 1; k <= pieces.size() + 1; ++k) {
+		log.clear(); g_callbacks = 0;
+		std::string tag = "i" + std::to_string(k);
+		g_tag = tag; g_inhex = (k <= pieces.size() ? h.kids[k].atom : std::string("-"));
+		std::string res = parse_once(p);
+		finish_run(caseno, tag, k <= pieces.size() ? h.kids[k].atom : std::string("-"), res.c_str(), p, e, log);
+		if (res != "1" && *idx >= pieces.size()) break;
+	}
+	std::fflush(stdout);
+	_exit(0);
+}
+
+// (threads N): every (input ..) of the case is parsed from N threads at once, all sharing one const grammar;
+// each thread's lines must equal the single-threaded ones
+static std::string run_to_string(grammar const& gr, std::string const& inp)
+{
+	std::vector<std::string> log; g_log = &log; g_callbacks = 0;
+	environment e;
+	basic_parser<string_view_input_source> p{gr, e};
+	p.enqueue(inp.begin(), inp.end());
+	lug_verif_step = &step_hook;
+	std::string res = parse_once(p);
+	std::string out = "res=" + res + " sr=" + std::to_string(p.subject_index()) + " mr=" + std::to_string(p.max_subject_index()) + " steps=" + std::to_string(g_steps) + " log=";
+	for (auto const& l : log) out += l + " ";
+	return out;
+}
+
+static void run_threads(int caseno, grammar const& gr, std::vector<std::string> const& inputs, unsigned nthreads)
+{
+	std::vector<std::string> expected;
+	for (auto const& i : inputs) expected.push_back(run_to_string(gr, i));
+	std::vector<std::vector<std::string>> got(nthreads);
+	std::vector<std::thread> ts;
+	for (unsigned t = 0; t < nthreads; ++t)
+		ts.emplace_back([&, t]() { g_budget = 3000000; for (int rep = 0; rep < 3; ++rep) for (size_t k = 0; k < inputs.size(); ++k) { auto r = run_to_string(gr, inputs[(k + t) % inputs.size()]); if (rep == 0) got[t].resize(inputs.size()); got[t][(k + t) % inputs.size()] = r; } });
+	for (auto& t : ts) t.join();
+	size_t bad = 0; std::string first;
+	for (unsigned t = 0; t < nthreads; ++t) for (size_t k = 0; k < inputs.size(); ++k) if (got[t][k] != expected[k]) { if (!bad) first = "thread " + std::to_string(t) + " input " + std::to_string(k) + ": " + got[t][k] + " != " + expected[k]; ++bad; }
+	std::printf("case %d threads n=%u inputs=%zu mismatches=%zu %s\n", caseno, nthreads, inputs.size(), bad, first.c_str());
+}
+
 int main(int argc, char** argv)
 {
 	std::size_t budget = 200000;
-	for (int i = 1; i < argc; ++i) { std::string a = argv[i]; if (a == "--trace") g_trace = true; else if (a.rfind("--budget=", 0) == 0) budget = std::stoul(a.substr(9)); }
+	bool more_sources = false;
+	for (int i = 1; i < argc; ++i) { std::string a = argv[i]; if (a == "--trace") g_trace = true; else if (a == "--sources") more_sources = true; else if (a.rfind("--budget=", 0) == 0) budget = std::stoul(a.substr(9)); }
 	for (int i = 1; i < argc; ++i) if (std::string(argv[i]) == "--nofork") g_fork = false;
 	std::set_terminate(&on_terminate);
 	lug_verif_step = &step_hook;
@@ -301,6 +453,23 @@ int main(int argc, char** argv)
 					std::string inhex = k.kids.size() > 1 ? k.kids[1].atom : "-";
 					std::string inp = unhex(inhex);
 					run_one<basic_parser<string_view_input_source>>(caseno, "sv", inhex, gr, log, [&](auto& p) { p.enqueue(inp.begin(), inp.end()); });
+					if (more_sources) {
+						// a copied std::string behind a non-contiguous (forward) iterator range, and a std::istream
+						std::list<char> lst(inp.begin(), inp.end());
+						run_one<basic_parser<string_input_source>>(caseno, "str", inhex, gr, log, [&](auto& p) { p.enqueue(lst.begin(), lst.end()); });
+						auto iss = std::make_shared<std::istringstream>(inp);
+						run_one<parser>(caseno, "ist", inhex, gr, log, [&](auto& p) {
+							p.push_source([iss](auto out, source_options opt) -> bool { return static_cast<bool>(lug::readsource(*iss, out, '\n', opt)); });
+						});
+					}
+				} else if (tag == "history") {
+					run_history(caseno, gr, k, log);
+				} else if (tag == "lines") {
+					run_lines(caseno, gr, k, log);
+				} else if (tag == "threads") {
+					std::vector<std::string> inputs;
+					for (size_t j = 1; j < g.kids.size(); ++j) if (g.kids[j].kids.at(0).atom == "input") inputs.push_back(unhex(g.kids[j].kids.size() > 1 ? g.kids[j].kids[1].atom : "-"));
+					run_threads(caseno, gr, inputs, static_cast<unsigned>(std::stoul(k.kids.at(1).atom)));
 				} else if (tag == "chunks") { // (chunks HEX HEX ...): push_source delivering the pieces one call at a time
 					std::vector<std::string> pieces; std::string all;
 					for (size_t j = 1; j < k.kids.size(); ++j) { pieces.push_back(unhex(k.kids[j].atom)); all += (j > 1 ? "|" : "") + k.kids[j].atom; }
